@@ -22,7 +22,7 @@ ASSUMPTIONS = [
     'derivative oracle: complex-step differentiation of the reference (exact to rounding)',
     'outputs of multiplicative / constant+multiplicative models are positive (negative total '
     'standard deviations are outside the documented model)']
-REQUIRED = ['kind:gauss', 'kind:mult', 'kind:cm', 'kind:lognorm', 'oos', 'reduced', 'p=0', 'n=1', 'long']
+REQUIRED = ['kind:gauss', 'kind:mult', 'kind:cm', 'kind:lognorm', 'oos', 'reduced', 'p=0', 'n=1', 'long', 'cm:negative_output']
 KINDS = ['gauss', 'mult', 'cm', 'lognorm']
 
 
@@ -59,6 +59,16 @@ def _spec(draw):
         ybar = gen.distinct(ybar)
         y = [v if v != b else gen.r6(v * 1.05) for v, b in zip(y, ybar)]
     sig = draw(gen.vec(gen.logu(1e-3, 1e3), npar))
+    if kind == 'cm' and gen.chance(draw, 0.35):
+        # negative model outputs (e.g. change from baseline) with sigma_base + sigma_rel * ybar > 0 everywhere:
+        # the documented density is a proper Gaussian there
+        ybar = draw(gen.vec(gen.signed_logu(1e-2, 1e2), n))
+        if gen.chance(draw, 0.8):
+            ybar = gen.distinct(ybar)
+        if not any(v < 0 for v in ybar):
+            ybar[0] = -abs(ybar[0])
+        sig[1] = draw(gen.logu(1e-3, 1e1))
+        sig[0] = gen.r6(sig[1] * max(-v for v in ybar) * (1.0 + draw(gen.logu(0.05, 5.0))))
     S = draw(gen.mat(gen.real(-5, 5), n, p))
     oos = None
     if gen.chance(draw, 0.15):
@@ -94,6 +104,8 @@ def classify(spec):
         labs.append('p=0')
     if spec['n'] == 1:
         labs.append('n=1')
+    if spec['kind'] == 'cm' and any(v < 0 for v in spec['ybar']) and not spec['oos']:
+        labs.append('cm:negative_output')
     return labs
 
 
@@ -208,6 +220,25 @@ def check(case):
             if np.any(~(err <= tol)):
                 k = int(np.argmax(err / tol))
                 case.fail('mismatch', 'sensitivity[%d]: got %r expected %r' % (k, sens[k], want_s[k]))
+
+    # the caller's arrays are inputs: the same float64 arrays passed again give the same results and keep their values
+    with case.clause('inputs_unchanged'):
+        a_sig, a_yb, a_S, a_y = sig_free.copy(), ybar.copy(), S.copy(), y.copy()
+        first = em.compute_sensitivities(a_sig, a_yb, a_S, a_y)
+        v1 = em.compute_log_likelihood(a_sig, a_yb, a_y)
+        p1 = np.array(em.compute_pointwise_ll(a_sig, a_yb, a_y), dtype=float)
+        second = em.compute_sensitivities(a_sig, a_yb, a_S, a_y)
+        for nm, a, b in (('parameters', a_sig, sig_free), ('model output', a_yb, ybar), ('model sensitivities', a_S, S),
+                         ('observations', a_y, y)):
+            case.true(np.array_equal(a, b), 'the %s array passed to the error model was modified: %r -> %r' % (
+                nm, np.asarray(b).tolist()[:6], np.asarray(a).tolist()[:6]), kind='input_modified')
+        case.close(second[0], first[0], rtol=0, atol=0, what='score of a second compute_sensitivities call with the '
+                                                             'same arrays')
+        if insup:
+            case.close(np.asarray(second[1], dtype=float), np.asarray(first[1], dtype=float), rtol=1e-13,
+                       what='sensitivities of a second compute_sensitivities call with the same arrays')
+            case.close(v1, first[0], rtol=1e-9, what='compute_log_likelihood vs score of compute_sensitivities')
+            case.close(np.sum(p1), v1, rtol=1e-9, what='sum(pointwise) vs total (same arrays)')
 
     if insup:
         with case.clause('normalisation'):
